@@ -569,7 +569,7 @@ class Evaluator:
             m = ci.find_method(name)
             if m is not None:
                 return FuncV(m, None, v, ci)
-        if isinstance(v, (Lst, Dct, V, FuncV, LambdaV)):
+        if isinstance(v, (Lst, Dct, V, FuncV, LambdaV)) or type(v).__name__ == "ListElem":
             return self.lib.value_attr(self, v, name, node)
         raise AnalysisError("attribute %s of %r" % (name, v))
 
